@@ -3,6 +3,7 @@ package chain
 import (
 	"bytes"
 	"crypto/ecdsa"
+	"crypto/sha256"
 	"fmt"
 	"math"
 	"math/big"
@@ -28,8 +29,9 @@ type Amt struct {
 
 // MultiSel describes a multisig sender.
 type MultiSel struct {
-	Addr    int   `json:"addr"`    // index into the view's multisig list (mod len)
-	Signers []int `json:"signers"` // account indexes that sign (may include non-owners / duplicates)
+	Addr    int   `json:"addr"`            // index into the view's multisig list (mod len)
+	Signers []int `json:"signers"`         // account indexes that sign (may include non-owners / duplicates)
+	Twice   bool  `json:"twice,omitempty"` // one real owner signs as often as needed to reach the threshold alone (distinct valid signatures)
 }
 
 // Op is one intent-level operation with every random choice already drawn.
@@ -103,16 +105,16 @@ type View struct {
 
 // IssuedCheck is the harness's record of a check it issued.
 type IssuedCheck struct {
-	Raw      []byte
-	Issuer   int
-	Pass     int
-	Coin     uint64
-	GasCoin  uint64
-	Value    *big.Int
-	DueBlock uint64
-	ChainOK  bool
-	Nonce    []byte
-	LockBad  bool
+	Raw         []byte
+	Issuer      int
+	Pass        int
+	Coin        uint64
+	GasCoin     uint64
+	Value       *big.Int
+	DueBlock    uint64
+	ChainOK     bool
+	Nonce       []byte
+	LockBad     bool
 	GenesisUsed bool // listed under used_checks of the genesis: was redeemed on the chain this one continues
 }
 
@@ -518,6 +520,24 @@ func (v *View) Resolve(op Op) *TxMeta {
 		signKeys = nil
 		for _, s := range op.MS.Signers {
 			signKeys = append(signKeys, Acct(mod(int64(s), v.NAcct+3)).Priv)
+		}
+		if op.MS.Twice && ms != nil {
+			for i, a := range ms.Addresses {
+				if idx, ok := v.idxOf(a); ok && i < len(ms.Weights) && ms.Weights[i] > 0 {
+					reps := int((ms.Threshold + ms.Weights[i] - 1) / ms.Weights[i])
+					if reps < 2 {
+						reps = 2
+					}
+					if reps > 6 {
+						reps = 6
+					}
+					signKeys = nil
+					for k := 0; k < reps; k++ {
+						signKeys = append(signKeys, Acct(idx).Priv)
+					}
+					break
+				}
+			}
 		}
 	}
 
@@ -1063,10 +1083,17 @@ func (v *View) Resolve(op Op) *TxMeta {
 		seen := map[types.Address]bool{}
 		dup := false
 		for _, k := range signKeys {
-			if err := tx.Sign(k); err != nil {
+			a := crypto.PubkeyToAddress(k.PublicKey)
+			if seen[a] {
+				// the same owner signs again: with another ECDSA nonce, so that the second signature is a
+				// different, perfectly valid signature of the same key (not a byte-identical copy)
+				h := tx.Hash()
+				tx.SetSignature(signWithNonce(h[:], k, uint64(len(m.Signers))))
+				w := len(m.Signers)
+				_ = w
+			} else if err := tx.Sign(k); err != nil {
 				panic(err)
 			}
-			a := crypto.PubkeyToAddress(k.PublicKey)
 			m.Signers = append(m.Signers, a)
 			if seen[a] {
 				dup = true
@@ -1240,5 +1267,46 @@ func malleate(b []byte, sel int) []byte {
 		return append([]byte{}, b...)
 	default: // trailing byte
 		return append(append([]byte{}, b...), 0x00)
+	}
+}
+
+// signWithNonce signs hash with an explicitly chosen ECDSA nonce (derived from the key, the hash and
+// salt): a second, different but valid low-S signature of the same key over the same message.
+func signWithNonce(hash []byte, prv *ecdsa.PrivateKey, salt uint64) []byte {
+	curve := crypto.S256()
+	n := curve.Params().N
+	seed := append(append(append([]byte("alt-nonce"), prv.D.Bytes()...), hash...), byte(salt), byte(salt>>8))
+	for ctr := 0; ; ctr++ {
+		kh := sha256.Sum256(append(seed, byte(ctr)))
+		k := new(big.Int).SetBytes(kh[:])
+		k.Mod(k, n)
+		if k.Sign() == 0 {
+			continue
+		}
+		x, y := curve.ScalarBaseMult(k.Bytes())
+		r := new(big.Int).Mod(x, n)
+		if r.Sign() == 0 || x.Cmp(n) >= 0 {
+			continue
+		}
+		z := new(big.Int).SetBytes(hash)
+		sv := new(big.Int).Mul(r, prv.D)
+		sv.Add(sv, z)
+		sv.Mul(sv, new(big.Int).ModInverse(k, n))
+		sv.Mod(sv, n)
+		if sv.Sign() == 0 {
+			continue
+		}
+		v := byte(y.Bit(0))
+		half := new(big.Int).Rsh(n, 1)
+		if sv.Cmp(half) > 0 {
+			sv.Sub(n, sv)
+			v ^= 1
+		}
+		sig := make([]byte, 65)
+		rb, sb := r.Bytes(), sv.Bytes()
+		copy(sig[32-len(rb):32], rb)
+		copy(sig[64-len(sb):64], sb)
+		sig[64] = v
+		return sig
 	}
 }
